@@ -73,6 +73,8 @@ type Interp struct {
 	nondetN   int
 	tape      []TapeEntry
 	pathShared map[string]int
+	pathSync   map[string]int // writes made through goroutine-safe containers or under a held lock
+	lockDepth  int
 	syncMaps  map[*Cell]*MapObj
 }
 
@@ -1919,6 +1921,13 @@ func (in *Interp) sharedWrite(c *Cell) {
 		return
 	}
 	name := in.describeGlobalCell(c)
+	if in.lockDepth > 0 {
+		// under a held sync.Mutex / inside sync.Once: synchronised, not a
+		// premise-P write; whether it changes results is decided by the
+		// history-independence assertions
+		in.noteSync("locked: " + name)
+		return
+	}
 	in.ex.shareWrites[name]++
 	if in.pathShared == nil {
 		in.pathShared = map[string]int{}
@@ -1926,23 +1935,33 @@ func (in *Interp) sharedWrite(c *Cell) {
 	in.pathShared[name]++
 }
 
+func (in *Interp) noteSync(name string) {
+	if in.pathSync == nil {
+		in.pathSync = map[string]int{}
+	}
+	in.pathSync[name]++
+	in.ex.shareWrites["(synchronised) "+name]++
+}
+
 func (in *Interp) sharedWriteMap(m *MapObj) {
 	if !in.trackShared {
 		return
 	}
 	if m.kt == nil {
-		in.ex.shareWrites["sync.Map"]++
-		if in.pathShared == nil {
-			in.pathShared = map[string]int{}
-		}
-		in.pathShared["sync.Map"]++
+		// sync.Map: goroutine-safe by contract
+		in.noteSync("sync.Map")
 		return
 	}
-	in.ex.shareWrites["map:"+typeString(m.kt)+"->"+typeString(m.vt)]++
+	name := "map:" + typeString(m.kt) + "->" + typeString(m.vt)
+	if in.lockDepth > 0 {
+		in.noteSync("locked: " + name)
+		return
+	}
+	in.ex.shareWrites[name]++
 	if in.pathShared == nil {
 		in.pathShared = map[string]int{}
 	}
-	in.pathShared["map:"+typeString(m.kt)+"->"+typeString(m.vt)]++
+	in.pathShared[name]++
 }
 
 func (in *Interp) describeGlobalCell(c *Cell) string {
